@@ -168,6 +168,8 @@ func (r *runner) step(o Op) Res {
 			vals, err = r.call(r.ioInput, lua.LString(r.path)) // io.input(name): mode "r"
 		case o.Via == "io" && o.Mode == "w":
 			vals, err = r.call(r.L.GetField(r.ioTab, "output"), lua.LString(r.path)) // io.output(name): mode "w"
+		case o.NilArg && o.Mode == "r":
+			vals, err = r.call(r.ioOpen, lua.LString(r.path), lua.LNil)
 		default:
 			vals, err = r.call(r.ioOpen, lua.LString(r.path), lua.LString(o.Mode))
 		}
@@ -244,7 +246,11 @@ func (r *runner) step(o Op) Res {
 			if _, err = r.call(r.ioInput, ud); err != nil {
 				return Res{T: "weird", Note: "io.input(f): " + err.Error()}
 			}
-			vals, err = r.call(r.ioLines) // the iterator and the default input as its state
+			if o.NilArg {
+				vals, err = r.call(r.ioLines, lua.LNil)
+			} else {
+				vals, err = r.call(r.ioLines) // a closure over the default input
+			}
 		} else {
 			vals, err = r.call(fn, ud)
 		}
@@ -282,7 +288,14 @@ func (r *runner) step(o Op) Res {
 	case "seek":
 		args := []lua.LValue{ud}
 		if !o.NoArg {
-			args = append(args, lua.LString(o.Whence), lua.LNumber(o.Off))
+			var w, n lua.LValue = lua.LString(o.Whence), lua.LNumber(o.Off)
+			if o.NilArg && o.Whence == "cur" {
+				w = lua.LNil
+			}
+			if o.NilArg && o.Off == 0 {
+				n = lua.LNil
+			}
+			args = append(args, w, n)
 		}
 		vals, err := r.call(fn, args...)
 		return shape("seek", vals, err)
